@@ -31,6 +31,10 @@ fn main() {
             }
             println!("[{}]", out.join(","));
         }
+        "c03-alloc" => {
+            let (n, v) = c03::alloc_histories(arg(2, 31));
+            println!("{{\"histories\":{},\"violation\":{}}}", n, match v { None => "null".to_string(), Some(f) => format!("{:?}", f) });
+        }
         "c03-dfs" => {
             let (d, c) = (arg(2, 2), arg(3, 2));
             let mut total = 0;
@@ -46,7 +50,7 @@ fn main() {
                 total += n;
                 viol = viol.or(v);
             }
-            println!("{{\"transitions\":{},\"violation\":{:?}}}", total, viol);
+            println!("{{\"transitions\":{},\"violation\":{}}}", total, match viol { None => "null".to_string(), Some(v) => format!("{:?}", v) });
         }
         "c16-utf8" => {
             let thorough = std::env::args().nth(2).as_deref() == Some("thorough");
